@@ -21,7 +21,12 @@ class TryCompute:
 
     def __exit__(self, exc_type, exc_value, exc_tb):
         self.depth -= 1
-        return exc_type is NotReadyError
+        # An eager attempt may also run into a value that is being computed
+        # right now (e.g. an operand inside a '.repeat' body that needs the
+        # address of a label after the loop while the loop itself is still
+        # being expanded). That is "not ready yet" as well: a real cycle is
+        # reported when the value is finally waited for.
+        return exc_type is NotReadyError or exc_type is DeferredCycle
 
 try_compute = TryCompute()
 
